@@ -731,6 +731,10 @@ func (env *Env) evalCall(e *SX) Term {
 		ts, _ := u.sortOfTypeStr(args[1].Name)
 		_, _, is := c.boxFns(ts, xv.Sort)
 		return app(sortBool, is, xv)
+	case "sortpos":
+		// sortpos(a, b, i): position in b of the element a[i], where one of a, b is the sorted permutation of the other
+		a, b, i := ev(0), ev(1), ev(2)
+		return app(sortInt, c.sortwFn(a.Sort), c.slArr(a), c.slArr(b), i)
 	case "same":
 		// native (term-level) equality, also for slices
 		return tEq(ev(0), ev(1))
